@@ -54,9 +54,30 @@ Theorem C28_overcount_panics : forall n bs root,
 Proof. exact parse_cmds_overcount. Qed.
 Print Assumptions C28_overcount_panics.
 
-(** Full statement — the property as given quantifies over "every write that can be accepted": the
-    write path bounds neither the number of columns nor the length of a column name ([acceptableb] is
-    what Go's types and the construction of a WriteCommand guarantee).  Refuted by the faithful model. *)
+(** the write path's acceptance (Go typing, WriteCommand construction, and CheckStorable at bucket creation —
+    fix d005c52) makes every command encodable unless it has more than 255 data shapes *)
+Theorem C28_accepted_encodable : forall c,
+  acceptableb c = true -> many_shapesb c = false -> encodableb c = true.
+Proof. exact accepted_encodable. Qed.
+Print Assumptions C28_accepted_encodable.
+
+(** the name half of the property as stated, now a theorem: every ACCEPTED write with at most 255 data
+    shapes round-trips (no hypothesis on name lengths: acceptance bounds them by elementNameHeaderBytes) *)
+Theorem C28_accepted_roundtrip : forall tgid cmds root,
+  in_ity I64 tgid -> Z.of_nat (length cmds) < 2 ^ 63 ->
+  forallb acceptableb cmds = true ->
+  forallb (fun c => negb (many_shapesb c)) cmds = true ->
+  parseTGData (serializeTG tgid cmds) root = Ok (tgid, map (to_wtset root) cmds).
+Proof.
+  intros tgid cmds root H1 H2 Ha Hm. apply parse_serialize_roundtrip_checked; try assumption.
+  rewrite forallb_forall in *. intros c Hc. apply accepted_encodable; [apply Ha; exact Hc|].
+  apply negb_true_iff. apply Hm. exact Hc.
+Qed.
+Print Assumptions C28_accepted_roundtrip.
+
+(** Full statement — the property as given quantifies over "every write that can be accepted".  Acceptance
+    still does not bound the number of data shapes by 255 (the header holds maxNumElements = 1024
+    elements).  Refuted by the faithful model. *)
 Definition C28_full : Prop := forall tgid cmds root,
   in_ity I64 tgid -> Z.of_nat (length cmds) < 2 ^ 63 ->
   forallb acceptableb cmds = true ->
@@ -64,13 +85,9 @@ Definition C28_full : Prop := forall tgid cmds root,
 
 Definition epoch_shape : shape := mkshape [x45; x70; x6f; x63; x68] x03.        (* "Epoch" : INT64 *)
 
-(** witness 1: one FIXED command whose second column name has 256 bytes: its length byte is 0, the
-    decoder returns the schema [("Epoch",3); ("",0x4e)] — silently wrong *)
-Definition C28_witness_long_name : list cmd :=
-  [ mkcmd 0 [x61; x2f; x62] 0 37024 1 [x01; x02; x03; x04] [ epoch_shape; mkshape (repeat x4e 256) x00 ] ].
-
-(** witness 2: one command with 256 data shapes: uint8(256) = 0, DSVToBytes returns nil, nothing is
-    appended, and the decoder finds no shape vector: an error (a panic before the fix), ParseTGData returns (0, nil) *)
+(** witness: one accepted command with 256 data shapes: uint8(256) = 0, DSVToBytes returns nil, nothing is
+    appended, and the decoder finds no shape vector: an error (a panic before fix afc5bfc), ParseTGData
+    returns (0, nil) *)
 Definition C28_witness_many_shapes : list cmd :=
   [ mkcmd 0 [x61; x2f; x62] 0 37024 1 [x01; x02; x03; x04] (repeat epoch_shape 256) ].
 
@@ -78,47 +95,41 @@ Theorem C28_refuted : ~ C28_full.
 Proof.
   intros H.
   assert (H7 : in_ity I64 7) by (apply in_ityb_spec; reflexivity).
-  specialize (H 7 C28_witness_long_name [x2f; x64] H7 eq_refl eq_refl).
+  specialize (H 7 C28_witness_many_shapes [x2f; x64] H7 eq_refl eq_refl).
   vm_compute in H. discriminate H.
 Qed.
 Print Assumptions C28_refuted.
 
-Theorem C28_refuted_many_shapes : ~ C28_full.
-Proof.
-  intros H.
-  assert (H7 : in_ity I64 7) by (apply in_ityb_spec; reflexivity).
-  specialize (H 7 C28_witness_many_shapes [x2f; x64] H7 eq_refl eq_refl).
-  vm_compute in H. discriminate H.
-Qed.
-Print Assumptions C28_refuted_many_shapes.
+(** the codec OUTSIDE the accepted domain: a command whose second column name has 256 bytes (rejected at
+    bucket creation since d005c52, but still constructible by a direct caller of serializeTG): its length
+    byte is 0 and the decoder returns the schema [("Epoch",3); ("",0x4e)] — silently wrong *)
+Definition C28_witness_long_name : list cmd :=
+  [ mkcmd 0 [x61; x2f; x62] 0 37024 1 [x01; x02; x03; x04] [ epoch_shape; mkshape (repeat x4e 256) x00 ] ].
 
-(** each witness lies in exactly one defect class, and outside the guard only because of it *)
+Example C28_codec_outside_accepted_domain :
+  forallb acceptableb C28_witness_long_name = false
+  /\ existsb long_nameb C28_witness_long_name = true
+  /\ ParseTGData_go (serializeTG 7 C28_witness_long_name) [x2f; x64]
+     = Ok (7, [ mkwt 0 [x2f; x64; x2f; x61; x2f; x62] 4 0 (cmd_buffer (hd (mkcmd 0 [] 0 0 0 [] []) C28_witness_long_name))
+                     [ epoch_shape; mkshape [] x4e ] ]).
+Proof. vm_compute. repeat split; reflexivity. Qed.
+
+(** the witness lies in the remaining defect class, and outside the guard only because of it *)
 Example C28_witness_classes :
-  forallb acceptableb C28_witness_long_name = true /\ existsb long_nameb C28_witness_long_name = true
-  /\ existsb many_shapesb C28_witness_long_name = false
-  /\ forallb acceptableb C28_witness_many_shapes = true /\ existsb many_shapesb C28_witness_many_shapes = true
+  forallb acceptableb C28_witness_many_shapes = true /\ existsb many_shapesb C28_witness_many_shapes = true
   /\ existsb long_nameb C28_witness_many_shapes = false
   /\ ParseTGData_go (serializeTG 7 C28_witness_many_shapes) [x2f; x64] = Ok (0, []).
 Proof. vm_compute. repeat split; reflexivity. Qed.
 
-(** the guard is exactly "acceptable and in neither class" *)
-Theorem C28_guard_exact : forall c,
-  encodableb c = acceptableb c && negb (long_nameb c) && negb (many_shapesb c).
-Proof.
-  intros c. unfold encodableb, acceptableb, long_nameb, many_shapesb.
-  rewrite negb_involutive. rewrite (Z.leb_antisym 255 (Z.of_nat (length (c_shapes c)))).
-  destruct (in_ityb I8 (c_rt c)), (blen (c_path c) <? 32768), (blen (c_data c) <? 2147483648), (in_ityb I32 (c_vrl c)),
-    (in_ityb I64 (c_off c)), (in_ityb I64 (c_idx c)), (1 <=? Z.of_nat (length (c_shapes c))),
-    (255 <? Z.of_nat (length (c_shapes c))), (forallb shape_okb (c_shapes c)); reflexivity.
-Qed.
-Print Assumptions C28_guard_exact.
-
 (** Non-vacuity: a concrete non-trivial transaction group meets the hypotheses of C28_roundtrip
-    (two commands, a 255-byte column name, 255 shapes, extreme offsets, an odd path). *)
+    (two commands, a 255-byte column name, 255 shapes, extreme offsets, an odd path); the second command is
+    also ACCEPTED (C28_accepted_roundtrip's hypotheses). *)
 Example C28_nonvacuous :
   in_ity I64 (-5) /\
   forallb encodableb
     [ mkcmd 0 [x61; x2f; x2e; x2e; x2f; x62] 0 (-9223372036854775808) 9223372036854775807 [x01; x02]
             [ epoch_shape; mkshape (repeat x41 255) x02 ];
-      mkcmd 1 [] 2147483647 37024 1 [] (repeat epoch_shape 255) ] = true.
-Proof. split; [apply in_ityb_spec; reflexivity | vm_compute; reflexivity]. Qed.
+      mkcmd 1 [] 2147483647 37024 1 [] (repeat epoch_shape 255) ] = true
+  /\ acceptableb (mkcmd 1 [] 2147483647 37024 1 [] (repeat epoch_shape 255)) = true
+  /\ many_shapesb (mkcmd 1 [] 2147483647 37024 1 [] (repeat epoch_shape 255)) = false.
+Proof. split; [apply in_ityb_spec; reflexivity | vm_compute; repeat split; reflexivity]. Qed.
